@@ -40,8 +40,13 @@ RecoverEv(e) ==
     /\ Clause("crash-before-recover", crashed)
     /\ Clause("file-readable-after-crash", e.readable)
     /\ Clause("one-row-per-id", e.dup = 0)
+    \* ... with the data it had when the synchronisation returned, or with NEWER data of the same individual: a later synchronisation may have
+    \* committed (costs arrived) without having returned yet when the process died
     /\ Clause("returned-synchronisations-are-durable",
-              \A k \in DOMAIN returned : \E i \in DOMAIN e.rows : e.rows[i].k = k /\ e.rows[i].v = returned[k][1] /\ e.rows[i].cf = returned[k][2])
+              \A k \in DOMAIN returned : \E i \in DOMAIN e.rows :
+                  /\ e.rows[i].k = k
+                  /\ \/ (e.rows[i].v = returned[k][1] /\ e.rows[i].cf = returned[k][2])
+                     \/ (returned[k][2] = 0 /\ e.rows[i].cf = e.rows[i].v /\ e.rows[i].cf # 0))
     /\ Clause("no-partially-written-individual", \A i \in DOMAIN e.rows : e.rows[i].complete)
     /\ Clause("row-costs-match-row-vector", \A i \in DOMAIN e.rows : e.rows[i].cf = 0 \/ e.rows[i].cf = e.rows[i].v)
     /\ Clause("evaluated-rows-have-costs", \A i \in DOMAIN e.rows : e.rows[i].st = "evaluated" => e.rows[i].cf = e.rows[i].v)
